@@ -164,6 +164,9 @@ CALL = {
     "aggregate": lambda x, r, ev: x.group_by("k").aggregate(n=len),
     # ... also when a summary function edits the group it is handed (the group is its own list of its own items)
     "aggregate_editing": lambda x, r, ev: x.group_by("k").aggregate(n=lambda g: len(g.fill_missing_keys(z=0).modify(a=lambda it: 9))),
+    "mul2": lambda x, r, ev: x * 2,        # every item object twice
+    "rmul1": lambda x, r, ev: 1 * x,
+    "add_self": lambda x, r, ev: x + x,
     "copy_std": lambda x, r, ev: __import__("copy").copy(x),            # the standard library's protocols
     "deepcopy_std": lambda x, r, ev: __import__("copy").deepcopy(x),
     "full_join_lit": lambda x, r, ev: x.full_join(make_lit(), "k"),
@@ -188,7 +191,7 @@ CALL = {
 SIMPLE_D = ("filter_fn", "filter_kv", "sort", "unique", "head", "head0", "tail", "slice", "copy", "copy_std", "reverse",
             "chain_filter_sort", "chain_slice_reverse")
 SIMPLE_E = ("modify", "modify_if", "modify_if_nested", "rename", "select", "unselect", "fill", "fill_kv")
-MAPS = ("map_identity", "map_tag", "group_by", "aggregate", "aggregate_editing", "deepcopy_std", "full_join_lit", "full_join_empty")
+MAPS = ("map_identity", "map_tag", "group_by", "aggregate", "aggregate_editing", "deepcopy_std", "full_join_lit", "full_join_empty", "mul2", "rmul1", "add_self")
 USES = ("pluck", "to_string")
 # which method of the statement each op instantiates (for the reference model and reports)
 METHOD = {"copy_std": "copy", "filter_fn": "filter", "filter_kv": "filter", "modify_if_nested": "modify_if",
@@ -208,7 +211,7 @@ SOURCE = {
     "semi_join": "{x}.semi_join({r}, 'k')", "anti_join": "{x}.anti_join({r}, 'k')",
     "map_identity": "{x}.map(lambda it: it)", "map_tag": "{x}.map(lambda it: {{**it, 't': 1}})", "group_by": "{x}.group_by('k')", "aggregate": "{x}.group_by('k').aggregate(n=len)",
     "aggregate_editing": "{x}.group_by('k').aggregate(n=lambda g: len(g.fill_missing_keys(z=0).modify(a=lambda it: 9)))",
-    "copy_std": "copy.copy({x})", "deepcopy_std": "copy.deepcopy({x})",
+    "copy_std": "copy.copy({x})", "deepcopy_std": "copy.deepcopy({x})", "mul2": "{x} * 2", "rmul1": "1 * {x}", "add_self": "{x} + {x}",
     "full_join_lit": "{x}.full_join(ListOfDicts(" + LIT.replace("{", "{{").replace("}", "}}") + "), 'k')", "full_join_empty": "{x}.full_join(ListOfDicts([]), 'k')",
     "modify": "{x}.modify(a=lambda it: 5)", "modify_if": "{x}.modify_if(lambda it: it['k'] == 1, a=lambda it: 6)",
     "modify_if_nested": "{x}.modify_if(lambda it: isinstance(it.get('n'), Box) and len(it['n'].v) < 2, "
@@ -460,8 +463,13 @@ def events_for(model, kmax):
     for i in range(m):
         mem = model.members[i]
         n = len(mem.items)
-        for op in SIMPLE_D + MAPS:
+        for op in SIMPLE_D:
             creating.append(("D", i, op))
+        if n > 0:
+            # methods the statement does not name: whether their result holds the receiver's item objects is observed,
+            # which needs items to observe (on an empty list both answers look alike: not explored)
+            for op in MAPS:
+                creating.append(("D", i, op))
         for k in (1, 2):
             if k > 1 and k > n:
                 continue
